@@ -327,9 +327,225 @@ func trajectory0(cs *sym.Case, rng *rand.Rand, K int, lr float64) (string, bool,
 	return "", known, K
 }
 
+/* ------------------------ recorded protocols (code -> spec) ----------------------- */
+
+type protoEvent struct {
+	Ev    string             `json:"ev"`
+	P     string             `json:"p,omitempty"`
+	Ok    bool               `json:"ok"`
+	Live  bool               `json:"live"`
+	Flags map[string][3]bool `json:"flags,omitempty"`
+}
+
+// recordProtocol runs a random training protocol of `steps` steps on a real model of `depth` FC layers and logs one
+// event per call. Updates and resets are omitted, reordered and repeated across steps at random.
+func recordProtocol(seed int64, depth, steps int) (evs []protoEvent, err error) {
+	defer func() {
+		if r := recover(); r != nil {
+			err = fmt.Errorf("panic: %v", r)
+		}
+	}()
+	rng := rand.New(rand.NewSource(seed))
+	widths := []int{1 + rng.Intn(3)}
+	for i := 0; i < depth; i++ {
+		widths = append(widths, 1+rng.Intn(3))
+	}
+	widths[depth] = 1 // MSE needs a rank-1 prediction
+	batch := 1 + rng.Intn(4)
+	var fcs []*layers.FC
+	var acts []forwarder
+	var ptrs []*tensor.Tensor
+	var names []string
+	for i := 0; i < depth; i++ {
+		conf := &layers.FCConfig{Inputs: widths[i], Outputs: widths[i+1]}
+		fc, e := layers.NewFC(conf)
+		if e != nil {
+			return nil, e
+		}
+		conf.Inputs, conf.Outputs = 77, 78
+		fcs = append(fcs, fc)
+		ws := fc.Weights()
+		ptrs = append(ptrs, ws[0].Value, ws[1].Value)
+		names = append(names, fmt.Sprintf("w%d", i+1), fmt.Sprintf("b%d", i+1))
+		switch rng.Intn(4) {
+		case 0:
+			acts = append(acts, activations.NewRelu())
+		case 1:
+			acts = append(acts, activations.NewLeakyRelu(nil))
+		case 2:
+			acts = append(acts, activations.NewSigmoid())
+		default:
+			acts = append(acts, activations.NewTanh())
+		}
+	}
+	xv := make([]float64, batch*widths[0])
+	for i := range xv {
+		xv[i] = 2*rng.Float64() - 1
+	}
+	yv := make([]float64, batch)
+	for i := range yv {
+		yv[i] = rng.Float64()
+	}
+	x, _ := bind.New([]int{batch, widths[0]}, xv, false)
+	y, _ := bind.New([]int{batch}, yv, false)
+	sgd := optimizers.NewSGD(&optimizers.SGDConfig{LearningRate: 0.05})
+	flags := func() map[string][3]bool {
+		m := map[string][3]bool{}
+		for i, p := range ptrs {
+			c := bind.Context(*p)
+			m[names[i]] = [3]bool{c.Tracked, c.Spent, c.HasGrad}
+		}
+		return m
+	}
+	for s := 0; s < steps; s++ {
+		o := x
+		for i := range fcs {
+			var e error
+			if o, e = fcs[i].Forward(o); e != nil {
+				return nil, e
+			}
+			if o, e = acts[i].Forward(o); e != nil {
+				return nil, e
+			}
+		}
+		o, e := o.Squeeze(1)
+		if e != nil {
+			return nil, e
+		}
+		loss, e := losses.NewMSE().Compute(o, y)
+		if e != nil {
+			return nil, e
+		}
+		evs = append(evs, protoEvent{Ev: "forward", Ok: true, Live: bind.Context(loss).Tracked, Flags: flags()})
+		if e := tensor.BackPropagate(loss); e != nil {
+			return nil, fmt.Errorf("BackPropagate: %v", e)
+		}
+		evs = append(evs, protoEvent{Ev: "backprop", Ok: true, Flags: flags()})
+		// a random schedule of updates (each parameter at most once per step) and resets
+		type act struct {
+			kind string
+			i    int
+		}
+		var sched []act
+		for i := range ptrs {
+			if rng.Intn(5) != 0 {
+				sched = append(sched, act{"update", i})
+			}
+			for k := rng.Intn(3); k > 0; k-- {
+				if rng.Intn(4) != 0 {
+					sched = append(sched, act{"reset", i})
+				}
+			}
+		}
+		rng.Shuffle(len(sched), func(a, b int) { sched[a], sched[b] = sched[b], sched[a] })
+		for _, a := range sched {
+			if a.kind == "update" {
+				before := *ptrs[a.i]
+				e := sgd.Update(ptrs[a.i])
+				if e != nil && *ptrs[a.i] != before {
+					return nil, fmt.Errorf("a rejected Update replaced the tensor")
+				}
+				evs = append(evs, protoEvent{Ev: "update", P: names[a.i], Ok: e == nil, Flags: flags()})
+			} else {
+				(*ptrs[a.i]).ResetGradContext(true)
+				evs = append(evs, protoEvent{Ev: "reset", P: names[a.i], Ok: true, Flags: flags()})
+			}
+		}
+		evs = append(evs, protoEvent{Ev: "endstep", Ok: true, Flags: flags()})
+	}
+	evs = append(evs, protoEvent{Ev: "end", Ok: true})
+	return evs, nil
+}
+
+// validateProtocols records n random protocols per model depth and has TLC validate them against TrainProto.
+func validateProtocols(c *run.Ctx, n, steps int) error {
+	for depth := 1; depth <= 3; depth++ {
+		file := filepath.Join(c.Work, fmt.Sprintf("proto-%d.ndjson", depth))
+		record := func() (int, []int64, error) {
+			f, err := os.Create(file)
+			if err != nil {
+				return 0, nil, run.Brokenf("%v", err)
+			}
+			defer f.Close()
+			w := bufio.NewWriter(f)
+			defer w.Flush()
+			total := 0
+			var starts []int64
+			for k := 0; k < n; k++ {
+				seed := c.Seed*1000003 + int64(depth)*7919 + int64(k)
+				evs, err := recordProtocol(seed, depth, steps)
+				if err != nil {
+					c.Violate(fmt.Sprintf("training protocol (seed %d, %d layers): a call of the protocol failed: %v", seed, depth, err), map[string]any{"proto_seed": seed, "depth": depth, "steps": steps})
+					return 0, nil, nil
+				}
+				starts = append(starts, int64(total))
+				if os.Getenv("QV_DRILL") == "proto" && k == 1 {
+					// binding drill: one logged outcome is falsified; TLC must reject the trace
+					for i := range evs {
+						if evs[i].Ev == "update" {
+							evs[i].Ok = !evs[i].Ok
+							break
+						}
+					}
+				}
+				for _, e := range evs {
+					b, _ := json.Marshal(e)
+					w.Write(append(b, '\n'))
+					total++
+				}
+			}
+			return total, starts, nil
+		}
+		total, _, err := record()
+		if err != nil {
+			return err
+		}
+		if total == 0 {
+			continue
+		}
+		ps := []string{}
+		for i := 1; i <= depth; i++ {
+			ps = append(ps, fmt.Sprintf("\"w%d\", \"b%d\"", i, i))
+		}
+		cfg := fmt.Sprintf("SPECIFICATION Spec\nCONSTANTS\n  Params = {%s}\nINVARIANT DeadWhileStale\nCONSTRAINT HighWater\nPOSTCONDITION TraceAccepted\nCHECK_DEADLOCK FALSE\n", strings.Join(ps, ", "))
+		name := fmt.Sprintf("trace_train_%d.cfg", depth)
+		os.WriteFile(filepath.Join(c.Work, name), []byte(cfg), 0o644)
+		res, err := c.TLC(run.TLCOpts{Module: "Trace_Train", Config: name, Workers: 1, Timeout: 10 * time.Minute, Env: []string{"QV_TRACE=" + file}, Tag: name})
+		if err != nil {
+			return err
+		}
+		if i := strings.Index(res.Out, "\"TRACE-REJECTED-AT\", "); i >= 0 {
+			var at int
+			fmt.Sscanf(res.Out[i+len("\"TRACE-REJECTED-AT\", "):], "%d", &at)
+			b, _ := os.ReadFile(file)
+			lines := strings.Split(string(b), "\n")
+			ev := ""
+			if at >= 1 && at-1 < len(lines) {
+				ev = lines[at-1]
+			}
+			// deterministic recording: record again and validate again before it counts
+			record()
+			res2, err := c.TLC(run.TLCOpts{Module: "Trace_Train", Config: name, Workers: 1, Timeout: 10 * time.Minute, Env: []string{"QV_TRACE=" + file}, Tag: name + "-again"})
+			if err != nil {
+				return err
+			}
+			if strings.Contains(res2.Out, "TRACE-REJECTED-AT") {
+				c.Violate(fmt.Sprintf("a recorded training protocol (%d layers) is not a behaviour of TrainProto: event %d %s", depth, at, ev), map[string]any{"proto_depth": depth, "event_index": at, "event": ev, "seed": c.Seed})
+			}
+			continue
+		}
+		if res.ExitCode != 0 || strings.Contains(res.Out, "Error:") {
+			return run.Brokenf("TLC trace validation of training protocols failed:\n%s", run.Tail(res.Out, 25))
+		}
+		c.Traces += n
+		c.AddExtra(fmt.Sprintf("recorded_protocols_%d_layers", depth), fmt.Sprintf("%d random protocols of %d steps (%d events) on real %d-layer models validated by TLC against TrainProto (which Train refines)", n, steps, total, depth))
+	}
+	return nil
+}
+
 func init() {
 	register("C11", "model_checking", func(c *run.Ctx) error {
-		c.Rule = "(1) TLC explores spec/Train.tla exhaustively: forward / back-propagate / Update(p) / Reset(p) / end-of-step with every way of omitting updates and resets, for batch, features in 1..2, Relu and LeakyRelu + MSE, 3 (4) steps, exact rational weights, with Descent, GradIsCurrent, StaleIsAnError, NoLeak, ShapesKept checked; every transition is replayed on a real FC layer / activation / MSE / SGD comparing weights, context states, gradients and ok/error of the last call; (2) TLC emits the symbolic one-step map (dLoss/dW, dLoss/dB as terms) of every model FC -> {Relu, LeakyRelu, Sigmoid, Tanh, Softmax} -> {MSE, BCE, CE} that type-checks for the size grid; the harness runs K real steps from seeded initialisations and checks w_{k+1} = w_k - lr*g(w_k) after every step with several learning rates (incl. 0 and negative); distinct = distinct protocol paths + distinct (model, sizes, learning rate, initialisation)"
+		c.Rule = "(0) Train refines the value-free protocol machine TrainProto (TLC property RefinesProto), and random protocols of 25 (40) steps recorded from real 1-3 layer models with any activation are validated by TLC against TrainProto (Trace_Train.tla); (1) TLC explores spec/Train.tla exhaustively: forward / back-propagate / Update(p) / Reset(p) / end-of-step with every way of omitting updates and resets, for batch, features in 1..2, Relu and LeakyRelu + MSE, 3 (4) steps, exact rational weights, with Descent, GradIsCurrent, StaleIsAnError, NoLeak, ShapesKept checked; every transition is replayed on a real FC layer / activation / MSE / SGD comparing weights, context states, gradients and ok/error of the last call; (2) TLC emits the symbolic one-step map (dLoss/dW, dLoss/dB as terms) of every model FC -> {Relu, LeakyRelu, Sigmoid, Tanh, Softmax} -> {MSE, BCE, CE} that type-checks for the size grid; the harness runs K real steps from seeded initialisations and checks w_{k+1} = w_k - lr*g(w_k) after every step with several learning rates (incl. 0 and negative); distinct = distinct protocol paths + distinct (model, sizes, learning rate, initialisation)"
 		c.Assumptions = []string{"known finding D2: with batch > 1 the parameter gradients pass an expansion; the as-is trajectory (valA / asis terms) is produced by the specification and matched exactly", "rational trajectories only for the piece-wise rational family; the other models are covered by the symbolic one-step maps"}
 		steps := 3
 		if c.Thorough {
@@ -339,7 +555,7 @@ func init() {
 		for _, act := range []string{"relu", "leakyrelu"} {
 			for batch := 1; batch <= 2; batch++ {
 				for feat := 1; feat <= 2; feat++ {
-					cfg := fmt.Sprintf("SPECIFICATION Spec\nCONSTANTS\n  Batch = %d\n  Feat = %d\n  Act = \"%s\"\n  MaxSteps = %d\nVIEW View\nCONSTRAINT NoKink\nINVARIANTS NoLeak ShapesKept\nPROPERTIES Descent StaleIsAnError GradIsCurrent\nACTION_CONSTRAINT Dump\nCHECK_DEADLOCK FALSE\n", batch, feat, act, steps)
+					cfg := fmt.Sprintf("SPECIFICATION Spec\nCONSTANTS\n  Batch = %d\n  Feat = %d\n  Act = \"%s\"\n  MaxSteps = %d\nVIEW View\nCONSTRAINT NoKink\nINVARIANTS NoLeak ShapesKept\nPROPERTIES Descent StaleIsAnError GradIsCurrent RefinesProto\nACTION_CONSTRAINT Dump\nCHECK_DEADLOCK FALSE\n", batch, feat, act, steps)
 					name := fmt.Sprintf("train_%s_%d_%d.cfg", act, batch, feat)
 					os.WriteFile(filepath.Join(c.Work, name), []byte(cfg), 0o644)
 					res, err := c.MustTLC(run.TLCOpts{Module: "Train", Config: name, Workers: 1, Timeout: 20 * time.Minute, Tag: name})
@@ -442,6 +658,11 @@ func init() {
 		}
 		c.AddExtra("symbolic_trajectories", ntraj)
 		c.AddExtra("training_steps_checked", nsteps)
-		return nil
+		// code -> spec: long random protocols on real models of 1..3 layers, validated by TLC
+		np, ns := 40, 25
+		if c.Thorough {
+			np, ns = 600, 40
+		}
+		return validateProtocols(c, np, ns)
 	})
 }
